@@ -80,6 +80,7 @@ fn record_checks(ont: &Ontology, recs: &[Vec<RecFact>; 3], tag: &str, rng: &mut 
 
         // ---- gene_by_name
         let mut sym_queries: Vec<String> = recs[0].iter().map(|r| r.name.clone()).collect();
+        sym_queries.extend(recs[0].iter().map(|r| format!("ALIAS{}", r.id)));
         sym_queries.extend(["".to_string(), "GENE".to_string(), "gene1".to_string(), "DUP".to_string(), "DUP1 ".to_string(), "ΓENE".to_string()]);
         for q in &sym_queries {
             bump(&mut out.events, "Ontology::gene_by_name");
@@ -245,6 +246,11 @@ impl Monitor for C10 {
                 } else {
                     vec![*rng.pick(&want)]
                 };
+                // several diseases may carry the very same name
+                let name = match f.recs[k].last() {
+                    Some(prev) if k > 0 && rng.chance(1, 4) => prev.name.clone(),
+                    _ => name,
+                };
                 f.recs[k].push(RecFact { id, name, terms });
             }
         }
@@ -302,6 +308,16 @@ impl Monitor for C10 {
                         (0, Some(t)) => c.annotate_gene(GeneId::from(r.id), &r.name, HpoTermId::from_u32(*t)).unwrap(),
                         (1, Some(t)) => c.annotate_omim_disease(OmimDiseaseId::from(r.id), &r.name, HpoTermId::from_u32(*t)).unwrap(),
                         (_, Some(t)) => c.annotate_orpha_disease(OrphaDiseaseId::from(r.id), &r.name, HpoTermId::from_u32(*t)).unwrap(),
+                    }
+                }
+            }
+            // a record that is mentioned again under another symbol / name keeps its first one; the other
+            // spelling does not become a name of anything
+            for r in &f.recs[0] {
+                if r.id % 3 == 0 {
+                    match r.terms.first() {
+                        None => c.add_gene(&format!("ALIAS{}", r.id), GeneId::from(r.id)),
+                        Some(t) => c.annotate_gene(GeneId::from(r.id), &format!("ALIAS{}", r.id), HpoTermId::from_u32(*t)).unwrap(),
                     }
                 }
             }
@@ -441,7 +457,10 @@ impl Monitor for C10 {
                 if rng.chance(1, 4) {
                     name = format!("EMG: {name}"); // the complete HPO has ~15 names of this form
                 }
-                jf.terms.push(TermFact { id: *id, name, obsolete: false, replaced_by: None });
+                // stanzas with is_obsolete / replaced_by tags (in any position relative to the name)
+                let obsolete = *id != 1 && *id != 118 && rng.chance(1, 4);
+                let replaced_by = if *id != 1 && *id != 118 && rng.chance(1, 4) { Some(rng.range(1, 9_999_999) as u32) } else { None };
+                jf.terms.push(TermFact { id: *id, name, obsolete, replaced_by });
             }
             // the records that the text formats can express (those with at least one term)
             jf.recs = f.recs.clone();
@@ -489,6 +508,12 @@ impl Monitor for C10 {
                         Err(p) => out.violate("C10", "panic:hpo_sweep_obo", format!("{} at {}", p.message, p.location)),
                     }
                     record_checks(&jo, &jrecs, "/text_files", &mut rng, &mut out);
+                    for t in &jf.terms {
+                        bump(&mut out.events, "Ontology::hpo");
+                        let got = jo.hpo(t.id).map(|x| (x.name().to_string(), x.is_obsolete(), x.replacement_id().map(|r| r.as_u32())));
+                        let exp = Some((t.name.clone(), t.obsolete, t.replaced_by));
+                        out.check(got == exp, "C10", "term_data_after_obo_load", || format!("hp.obo: hpo({}) returned {got:?}, the stanza says {exp:?}", t.id));
+                    }
                 }
                 Err(e) => out.violate("C10", "obo_load_failed", format!("{e}")),
             }
